@@ -71,3 +71,20 @@ def first_line_detection(P, rep, rid):
         rep.ok(rid, f.short, {'returning_paths': ok})
     else:
         raise AnalysisError('guess_line_endings: no returning path')
+
+
+def split_lossless_rule(P, rep, rid, tier, consequence):
+    """The rules of C16 instantiated under another property: split_lines must split on exactly the given
+    newline and neither fabricate nor drop bytes."""
+    from sa.report import Report
+    from sa.props import c16
+    f = P.func('pydiffx.utils.text', 'split_lines')
+    sub = Report('C16', tier, P)
+    c16.run(P, sub, tier)
+    if sub.violations:
+        v0 = sub.violations[0]
+        rep.violation(rid, 'split-lossy:%s' % v0['key'][:60], v0['loc'],
+                      'split_lines does not satisfy the rules of C16 (%d instance(s) fail, first: %s): %s'
+                      % (len(sub.violations), v0['msg'][:200], consequence), path=[f.short])
+    else:
+        rep.ok(rid, 'split_lines', {'c16_obligations': sum(r_['instances'] for r_ in sub.rules.values())})
